@@ -5,11 +5,13 @@
   Input lines (stdin):
     C <kind h|s> <max> <volatile 0|1>                                   start of a case (fresh, never-checked object)
     R <state> <execStart> <execEnd> <now> | <obs>
-    A <via a|e|x|c> <sticky> <notify> <persistent> <expiry> <now> | <obs>
-    X <via a|e|c> <now> | <obs>
+    A <via h|a|e|x|c> <sticky> <notify> <persistent> <expiry> <now> | <obs>      (h = HTTP request, modelled as a)
+    X <via h|a|e|c> <now> | <obs>
     T <now> | <obs>
+    P <now> <fired> | <obs>                                              timer pump; <fired> is an oracle input
+    D <on> <now> | <obs>                                                 downtime in effect added / removed
     <obs> = <acc> <ack> <expiry> <handled> <problem> <state> <stype> <attempt> <nSet> <nClr> <nAckN> <nProbN> <comments>
-    <comments> = `-` or `entry:persistent,...` (sorted)
+    <comments> = `-` or `entry:persistent:expire,...` (sorted)
   Output lines:
     MISMATCH line=<n> case=<k> impl=<...> model=<...>
     SPECFAIL line=<n> case=<k> clause=<name>
@@ -40,6 +42,12 @@ structure DSt where
   ackGone : Nat := 0           -- accepted with an expiry already in the past (cluster): set and cleared at once
   removes : Nat := 0
   advances : Nat := 0
+  pumps : Nat := 0
+  pumpsFired : Nat := 0
+  cmtExpired : Nat := 0        -- comments removed by the comment-expiry timer
+  downtimeOps : Nat := 0
+  handledDowntimeOnly : Nat := 0   -- looks at which the object is handled without being acknowledged
+  httpOps : Nat := 0           -- acknowledge / remove operations that went through HttpHandler::ProcessRequest
   setEvents : Nat := 0
   clearedEvents : Nat := 0
   clrExpiry : Nat := 0         -- lazy expiry
@@ -63,17 +71,18 @@ structure DSt where
   specfails : Nat := 0
 
 def showCmts (l : List Cmt) : String :=
-  if l.isEmpty then "-" else ",".intercalate (l.map fun c => s!"{c.entry}:{showBool c.persistent}")
+  if l.isEmpty then "-" else ",".intercalate (l.map fun c => s!"{c.entry}:{showBool c.persistent}:{c.expire}")
 
 def showObs (o : Obs) : String :=
   s!"{showBool o.acc},{o.ack.toNat},{o.expiry},{showBool o.handled},{showBool o.problem},{o.state.toNat},{o.stype.toNat},{o.attempt},{o.nSet},{o.nClr},{o.nAckN},{o.nProbN},{showCmts o.comments}"
 
 def parseCmt (s : String) : Option Cmt :=
   match s.splitOn ":" with
-  | [e, p] => do
+  | [e, p, x] => do
     let e ← parseInt? e
     let p ← parseBool? p
-    pure { entry := e, persistent := p }
+    let x ← parseInt? x
+    pure { entry := e, persistent := p, expire := x }
   | _ => none
 
 def parseCmts (s : String) : Option (List Cmt) :=
@@ -101,11 +110,11 @@ def parseObs (ws : List String) : Option Obs :=
 
 def parseVia (s : String) : Option Via :=
   match s with
-  | "a" => some .api | "e" => some .ext | "x" => some .extExpire | "c" => some .cluster | _ => none
+  | "a" => some .api | "h" => some .api | "e" => some .ext | "x" => some .extExpire | "c" => some .cluster | _ => none
 
 def parseRVia (s : String) : Option RVia :=
   match s with
-  | "a" => some .api | "e" => some .ext | "c" => some .cluster | _ => none
+  | "a" => some .api | "h" => some .api | "e" => some .ext | "c" => some .cluster | _ => none
 
 def parseOp (ws : List String) : Option Op :=
   match ws with
@@ -116,6 +125,8 @@ def parseOp (ws : List String) : Option Op :=
     pure (.ack (← parseVia via) (← parseBool? sticky) (← parseBool? notify) (← parseBool? pers) (← parseInt? ex) (← parseInt? nw))
   | ["X", via, nw] => do pure (.remove (← parseRVia via) (← parseInt? nw))
   | ["T", nw] => do pure (.advance (← parseInt? nw))
+  | ["P", nw, f] => do pure (.pump (← parseInt? nw) (← parseBool? f))
+  | ["D", on, nw] => do pure (.downtime (← parseBool? on) (← parseInt? nw))
   | _ => none
 
 def bump (d : DSt) (op : Op) (io : Obs) : DSt := Id.run do
@@ -142,14 +153,21 @@ def bump (d : DSt) (op : Op) (io : Obs) : DSt := Id.run do
                       cmtKeptPersistent := d.cmtKeptPersistent + (before.filter (·.persistent)).length }
   | .ack via _ _ _ ex nw =>
     d := { d with acks := d.acks + 1 }
-    if io.acc then d := { d with ackAccepted := d.ackAccepted + 1, caseSet := true }
-    if io.acc && io.ack == .none then d := { d with ackGone := d.ackGone + 1 }
+    if io.acc then
+      d := { d with ackAccepted := d.ackAccepted + 1, caseSet := true }
+      if io.ack == .none then d := { d with ackGone := d.ackGone + 1 }
     else if preRefuse d.cfg d.st via ex nw then d := { d with refusedPre := d.refusedPre + 1 }
     else d := { d with refusedAcked := d.refusedAcked + 1 }
   | .remove _ _ =>
     d := { d with removes := d.removes + 1 }
     if d.st.ack != .none && !wasExpired then d := { d with clrRemove := d.clrRemove + 1 }
   | .advance _ => d := { d with advances := d.advances + 1 }
+  | .pump _ fired =>
+    d := { d with pumps := d.pumps + 1 }
+    if fired then
+      d := { d with pumpsFired := d.pumpsFired + 1, cmtExpired := d.cmtExpired + (d.sp.comments.length - io.comments.length) }
+  | .downtime _ _ => d := { d with downtimeOps := d.downtimeOps + 1 }
+  if io.handled && io.ack == .none then d := { d with handledDowntimeOnly := d.handledDowntimeOnly + 1 }
   -- a case is non-trivial once an acknowledgement was set and later cleared; distinct by hash of its operations
   if d.caseSet && io.nClr > 0 && !d.caseCounted then
     d := { d with caseCounted := true }
@@ -180,6 +198,8 @@ def handle (d : DSt) (n : Nat) (line : String) : IO DSt := do
       let p := step d.cfg d.st op
       let mo := obsOf d.cfg p
       let mut d := { d with caseHash := mixHash d.caseHash (hash (" ".intercalate pre)) }
+      if (pre.head? == some "A" || pre.head? == some "X") && (pre.drop 1).head? == some "h" then
+        d := { d with httpOps := d.httpOps + 1 }
       d := bump d op io
       if mo != io then
         IO.println s!"MISMATCH line={n} case={d.caseNo} impl={showObs io} model={showObs mo}"
@@ -204,4 +224,4 @@ def main : IO Unit := do
   let stdin ← IO.getStdin
   let d ← foldLines stdin handle ({} : DSt)
   let d := closeCase d
-  IO.println s!"STATS cases={d.caseNo} steps={d.steps} results={d.results} dropped={d.dropped} state_changes={d.stateChanges} acks={d.acks} ack_accepted={d.ackAccepted} refused_ok_or_expiry={d.refusedPre} refused_acked={d.refusedAcked} ack_gone_at_once={d.ackGone} removes={d.removes} advances={d.advances} set_events={d.setEvents} cleared_events={d.clearedEvents} clr_expiry={d.clrExpiry} clr_normal_change={d.clrNormal} clr_sticky_recovery={d.clrSticky} sticky_kept_on_change={d.stickyKept} clr_remove={d.clrRemove} ack_notifs={d.ackNotifs} problem_notifs={d.problemNotifs} handled_looks={d.handledLooks} comments_removed={d.cmtRemoved} comments_kept_later={d.cmtKeptLater} comments_kept_persistent={d.cmtKeptPersistent} nontrivial={d.nontrivial} mismatches={d.mismatches} specfails={d.specfails}"
+  IO.println s!"STATS cases={d.caseNo} steps={d.steps} results={d.results} dropped={d.dropped} state_changes={d.stateChanges} acks={d.acks} ack_accepted={d.ackAccepted} refused_ok_or_expiry={d.refusedPre} refused_acked={d.refusedAcked} ack_gone_at_once={d.ackGone} removes={d.removes} advances={d.advances} pumps={d.pumps} pumps_fired={d.pumpsFired} comments_expired_by_timer={d.cmtExpired} downtime_ops={d.downtimeOps} handled_by_downtime_only={d.handledDowntimeOnly} http_ops={d.httpOps} set_events={d.setEvents} cleared_events={d.clearedEvents} clr_expiry={d.clrExpiry} clr_normal_change={d.clrNormal} clr_sticky_recovery={d.clrSticky} sticky_kept_on_change={d.stickyKept} clr_remove={d.clrRemove} ack_notifs={d.ackNotifs} problem_notifs={d.problemNotifs} handled_looks={d.handledLooks} comments_removed={d.cmtRemoved} comments_kept_later={d.cmtKeptLater} comments_kept_persistent={d.cmtKeptPersistent} nontrivial={d.nontrivial} mismatches={d.mismatches} specfails={d.specfails}"
